@@ -349,3 +349,18 @@ def field_default(fb, record_suffix, field):
                         i = i["args"][0]
                     return const_value(i) if i is not None else None
     raise AnalysisBroken("record …%s has no field %s" % (record_suffix, field))
+
+
+def bufferview_args(call_node):
+    """argument texts of the BufferView{ptr, len} constructed inside a callback invocation (casts removed)"""
+    from ..expr import strip_casts as _sc
+    for x in walk(call_node):
+        if x.get("k") in ("ctor", "ilist", "cast") and "BufferView" in x.get("t", "") + x.get("cls", ""):
+            args = x.get("args") or x.get("vals") or []
+            if x.get("k") == "cast":
+                inner = x.get("v")
+                if inner is not None and inner.get("k") in ("ilist", "ctor"):
+                    args = inner.get("args") or inner.get("vals") or []
+            if len(args) == 2:
+                return [show(_sc(strip_wrappers(a))).replace(" ", "") for a in args]
+    return None
